@@ -179,6 +179,11 @@ SIG = {
     'to_wif': ('keys.py', 'PrivateKey.to_wif',
                [('hashlib_sha256', 'Bytes → Bytes'), ('b58encode', 'Bytes → String'), ('wif_prefix', 'Bytes'),
                 ('self_key_bytes', 'Bytes'), ('compressed', 'Bool')], 'String'),
+    # script-hash addresses: what the address object commits to
+    'address_script_to_hash160': ('keys.py', 'Address._script_to_hash160',
+                                  [('hashlib_sha256', 'Bytes → Bytes'), ('OPS', 'List (String × Bytes)'), ('script', 'List Py.PyTok')], 'Bytes'),
+    'segwit_script_to_hash': ('keys.py', 'SegwitAddress._script_to_hash',
+                              [('hashlib_sha256', 'Bytes → Bytes'), ('OPS', 'List (String × Bytes)'), ('script', 'List Py.PyTok')], 'Bytes'),
     # Base58Check addresses: base58check as parameters, the two version bytes of the configured network as parameters, the address
     # class (get_type()) as the string it returns
     'is_address_valid': ('keys.py', 'Address._is_address_valid',
